@@ -152,6 +152,11 @@ def case(draw, chain=False):
                         if min(tuple(img), tuple(img[::-1])) not in [min(tuple(x), tuple(x[::-1])) for x in s[k + "s"]]:
                             s[k + "s"].append(img)
                             s[k + "_types"].append(s[k + "_types"][0])
+                            # ... sometimes listed two or three times (a torsion written as several terms on the same
+                            # atoms): every one of them is superseded by the pattern's term
+                            for _ in range(draw(st.sampled_from([0, 0, 1, 2]))):
+                                s[k + "s"].append(img if draw(st.booleans()) else img[::-1])
+                                s[k + "_types"].append(s[k + "_types"][draw(hperm.integers(0, len(s[k + "_types"]) - 1))])
     out = {"s": s, "r": r, "ppos": base["ppos"], "pels": base["pels"], "shared": base["shared"], "atol": base["atol"],
            "hints": base["hints"], "seeds": base["seeds"], "replace_all": base["replace_all"], "modes": modes,
            "pair_mode": pair_mode, "meta": base["meta"]}
